@@ -27,7 +27,7 @@ ASSUMPTIONS = [
     'to_json: "includes an object" = the object appears in the `objects` section; a bare foreign-key value of an unviewable object is not counted',
 ]
 RULE = ('every implementation run is judged twice - by the Coq model (correspondence) and by the statement-level oracle (search): `evaluations` counts both judgements, `distinct_nontrivial` counts each distinct run once. ' 'exhaustive: every single rule over {context entities} x {permissions} x {groups} x {roles} x {labels} x {excluded entities} x {excluded attributes} of a 2-entity '
-        'model (4608 rule sets; 2112 in the quick tier: no edit-only rules, at most two excluded attributes), every unordered pair over a reduced universe, seeded random triples; per rule set the full table user x permission x target '
+        'model (4608 rule sets; 2112 in the quick tier: no edit-only rules, at most two excluded attributes), every unordered pair over a reduced universe, seeded random triples; 720 histories across two sessions of one thread (check; session ends with commit or exception; the groups / roles of the user change; check); per rule set the full table user x permission x target '
         '(2 entities, 4 attributes, 4 objects) of has_perm, can_view, to_json of single objects and to_json with include=[relationship] (related object already loaded / loaded by to_json itself). non-trivial = the table contains both granted and refused cells; '
         'distinct = distinct rule sets')
 
@@ -113,6 +113,63 @@ def run_rulesets(ctx, rsets, procs=4, mode='table', extra=None):
     return res
 
 
+def session_cases(ctx):
+    R1 = [[mk([0], ['view'], ['g1'])], [mk([0, 1], ['view'], ['g1'])], [mk([0], ['view'], [], ['r1'])], [mk([0], ['view'], ['g1'], ['r1'])], [mk([0], ['view'])]]
+    out = []
+    for rules in R1:
+        for user in (1, 2):
+            for target in (0, 2, 6, 7):
+                for end1 in ('ok', 'raise'):
+                    for g0, g1 in ((False, True), (True, False), (True, True)):
+                        for r0, r1 in ((False, False), (False, True), (True, False)):
+                            out.append({'rules': rules, 'user': user, 'target': target, 'perm': 'view', 'end1': end1, 'g0': g0, 'g1': g1, 'r0': r0, 'r1': r1})
+    return out
+
+
+def run_sessions(ctx, cases):
+    return vlib.run_impl('c34_driver.py', {'mode': 'sessions', 'cases': cases, 'rulesets': []}, timeout=600)['results']
+
+
+def static_order(rules):
+    """order table for rule sets whose entity/permission sets hold a single rule (iteration order is then irrelevant)"""
+    out = {}
+    for k, r in enumerate(rules):
+        for e in r['ctx']:
+            for p in r['perms']: out.setdefault('%d,%s' % (e, p), []).append(k)
+    return out
+
+
+def session_expr(case, answers):
+    g = lambda b: '[0; 1]' if b else '[0]'
+    x = '(nth %d targets (TEntity 0))' % case['target']
+    return 'bools_eqb (history_now %s %s %s %s %s [HCheck 0 0 %s; HEnd %s; HCheck 1 0 %s]) %s' % (
+        c_rtable(case['rules'], static_order(case['rules'])), g(case['g0']), g(case['g1']), 'true' if case['r0'] else 'false',
+        'true' if case['r1'] else 'false', x, 'true' if case['end1'] == 'ok' else 'false', x, c_bools(answers))
+
+
+def session_failures(cases, res):
+    fails, seen = [], {}
+    for case, r in zip(cases, res):
+        kind, i = TARGETS[case['target']]
+        order = static_order(case['rules'])
+        for when, (gk, rk) in enumerate((('g0', 'r0'), ('g1', 'r1'))):
+            want = spec(case['rules'], order, case['user'], 'view', kind, i, groups={'g1'} if case[gk] else set(), role=case[rk])
+            got = r['answers'][when]
+            if got != want:
+                if when == 1:
+                    changed = 'groups' if case['g0'] != case['g1'] else ('roles' if case['r0'] != case['r1'] else 'nothing')
+                    key = 'sessions:answer-from-stale-%s-after-session-ended-with-%s' % (changed, 'commit' if case['end1'] == 'ok' else 'rollback')
+                else:
+                    key = 'sessions:first-check-wrong'
+                seen[key] = seen.get(key, 0) + 1
+                if seen[key] == 1:
+                    fails.append(Failure(key, 'session %d: has_perm(user %d, view, %s) = %s but with the user\'s current groups %s / role %s the declared rules say %s; '
+                                              'previous session ended with %s; rules %s' % (when + 1, case['user'], TNAMES[case['target']], got,
+                                              ['g1'] if case[gk] else [], case[rk], want, case['end1'], json.dumps(case['rules'])),
+                                         {'session_case': case, 'key': key}))
+    return fails, seen
+
+
 _cache = {}
 _counted = set()      # result sets whose non-trivial cases were already counted by correspondence()
 
@@ -192,8 +249,19 @@ def correspondence(ctx):
             exprs.append('same_hp %s %d%%N' % (c_rtable(rules, r['order']), pack(hp_cells(r['table']))))
         meta.append((rules, r))
         if any(r['table']) and not all(r['table']): nontriv.add(json.dumps(rules, sort_keys=True))
+    scases = session_cases(ctx)
+    sres = run_sessions(ctx, scases)
+    _cache['sessions'] = (scases, sres)
+    dist['sessions'] = len(scases)
+    n_tables = len(exprs)
+    for case, r in zip(scases, sres):
+        exprs.append(session_expr(case, r['answers'])); meta.append((case, r))
     bad = run_bools(ctx, exprs)
     for i in bad[:10]:
+        if i >= n_tables:
+            case, r = meta[i]
+            disagreements.append({'what': 'model and implementation differ on a history across sessions', 'input': case, 'impl': r, 'coq_case': exprs[i][:1500]})
+            continue
         rules, r = meta[i]
         disagreements.append({'what': 'model and implementation tables differ', 'input': rules, 'impl': {'order': r['order'], 'table': r['table']},
                               'coq_case': exprs[i][:2000]})
@@ -221,14 +289,16 @@ def correspondence(ctx):
 def rules_for(rules, order, e, p):
     return [rules[i] for i in order.get('%d,%s' % (e, p), [])]
 
-def groups_ok(r, u): return set(r['groups']) <= GROUPS_OF[u]
-
-def spec(rules, order, u, p, kind, i):
+def spec(rules, order, u, p, kind, i, groups=None, role=None):
+    """groups / role: what the providers say NOW (default: the static universe of the table run)"""
+    G = GROUPS_OF[u] if groups is None else groups
+    groups_ok = lambda r, u_: set(r['groups']) <= G
+    has_role = (lambda o: (u, o) in ROLES) if role is None else (lambda o: role)
     if kind == 'E':
         return any(groups_ok(r, u) and i not in r['exclE'] for r in rules_for(rules, order, i, p))
     if kind == 'O':
         e = OBJ_ENT[i]
-        return any(groups_ok(r, u) and (not r['roles'] or (u, i) in ROLES) and (not r['labels'] or i in LABELS) and e not in r['exclE']
+        return any(groups_ok(r, u) and (not r['roles'] or has_role(i)) and (not r['labels'] or i in LABELS) and e not in r['exclE']
                    for r in rules_for(rules, order, e, p))
     e = ATTR_ENT[i]
     own = rules_for(rules, order, e, p)
@@ -329,6 +399,10 @@ def failures_of(rs, res):
 def search(ctx, deep):
     rs, res = get_results(ctx, deep)
     fails, seen = failures_of(rs, res)
+    if 'sessions' not in _cache:
+        sc = session_cases(ctx); _cache['sessions'] = (sc, run_sessions(ctx, sc))
+    sf, sseen = session_failures(*_cache['sessions'])
+    fails += sf; seen.update(sseen)
     nt = set(json.dumps(r, sort_keys=True) for r, x in zip(rs, res) if any(x['table']) and not all(x['table']))
     if (ctx.seed, ctx.tier, deep) in _counted: nt = set()      # same executions as the correspondence run: count distinct cases once
     return Search(evaluations=len(rs), failures=fails, nontrivial=len(nt), exhaustive=True,
@@ -337,6 +411,12 @@ def search(ctx, deep):
 
 
 def replay(ctx, data):
+    if 'session_case' in data:
+        case = data['session_case']
+        fails, _ = session_failures([case], run_sessions(ctx, [case]))
+        for f in fails:
+            if data.get('key') is None or f.key == data['key']: return f
+        return None
     rules = data['rules']
     want_key = data.get('key')
     if data.get('want_order'):
